@@ -30,6 +30,7 @@ All theorems are for EVERY miniscript `ms` / policy `p` / descriptor `d` (no bou
 import MsVerif.Lemmas.TranslateEncode
 import MsVerif.Lemmas.TranslatePolicy
 import MsVerif.Lemmas.TranslateDesc
+import MsVerif.Model.ThresholdOps
 
 namespace MsVerif.C20
 open MsVerif MsVerif.TreeWalk MsVerif.CmpEq MsVerif.TranslateLemmas MsVerif.TranslateEncode
@@ -179,6 +180,13 @@ theorem for_any_key_eq_keys (pred : Key → Bool) (ms : Ms) :
   unfold forAnyKey
   rw [for_each_key_eq_keys]
 
+/-- `Miniscript::branches` (its own child table), `get_nth_child` and `get_nth_pk` agree with
+the children / keys of the node: the three tables in src/miniscript/iter.rs are consistent -/
+theorem branches_eq_children (ms : Ms) : ms.branches = ms.asNode.children := branches_eq ms
+theorem get_nth_child_eq (ms : Ms) (n : Nat) : ms.getNthChild n = ms.branches[n]? := by
+  rw [getNthChild_eq, branches_eq]
+theorem get_nth_pk_eq (ms : Ms) (n : Nat) : ms.getNthPk n = ms.keysAt[n]? := getNthPk_eq ms n
+
 /-- `Miniscript::iter` (path stack + `get_nth_child`) yields the nodes in pre-order -/
 theorem iter_eq_pre (ms : Ms) : ms.iterNodes = ms.pre := iterNodes_eq ms
 
@@ -301,6 +309,55 @@ example : polKeys wp = [0, 1, 2, 0] := by decide
 example : polForEachKey (fun k => k != 2) wp = ([0, 1, 2], false) := by decide
 
 end Policies
+
+/-! ## Th — the element-wise operations of `Threshold` -/
+
+section ThresholdOps
+variable {α β ε' : Type}
+
+/-- `map` keeps k and the positions -/
+theorem threshold_map_structure (f : α → β) (t : Thr α) :
+    (t.map f).k = t.k ∧ (t.map f).inner = t.inner.map f := ⟨rfl, rfl⟩
+
+/-- `translate` with a closure that never fails is `map`, with one call per element -/
+theorem threshold_translate_ok (f : α → β) (t : Thr α) :
+    t.translate (fun x => (.ok (f x) : Except ε' β)) = (.ok (t.map f), t.inner.length) := by
+  obtain ⟨k, l⟩ := t
+  simp only [Thr.translate, Thr.map]
+  induction l with
+  | nil => rfl
+  | cons x xs ih =>
+    simp only [Thr.walk]
+    cases h : Thr.walk (fun x => (.ok (f x) : Except ε' β)) xs with
+    | mk r n =>
+      rw [h] at ih
+      cases r with
+      | ok ys => simp at ih ⊢; exact ⟨by rw [ih.1], ih.2⟩
+      | error e => simp at ih
+
+/-- a failing closure stops the walk: the error is the one of the FIRST failing element and the
+closure is called exactly on the elements up to it -/
+theorem threshold_translate_first_failure (f : α → Except ε' β) (pre : List α) (x : α) (post : List α)
+    (e : ε') (hpre : ∀ y ∈ pre, ∃ z, f y = .ok z) (hx : f x = .error e) (k : Nat) :
+    (Thr.translate f ⟨k, pre ++ x :: post⟩) = (.error e, pre.length + 1) := by
+  simp only [Thr.translate]
+  induction pre with
+  | nil => simp [Thr.walk, hx]
+  | cons y ys ih =>
+    obtain ⟨z, hz⟩ := hpre y (by simp)
+    have := ih (fun w hw => hpre w (by simp [hw]))
+    simp only [List.cons_append, Thr.walk, hz]
+    cases h : Thr.walk f (ys ++ x :: post) with
+    | mk r n =>
+      rw [h] at this
+      cases r with
+      | ok _ => simp at this
+      | error e' => simp at this ⊢; exact ⟨this.1, by omega⟩
+
+example : (Thr.translate (fun x => if x = 3 then (.error x : Except Nat Nat) else .ok (x * 2)) ⟨2, [1, 2, 3, 4]⟩).2
+    = 3 := by decide
+
+end ThresholdOps
 
 /-! ## D — descriptors -/
 
